@@ -221,6 +221,7 @@ type Obl struct {
 	Fn     string
 	Vac    bool // vacuity/cover query: expected SAT
 	Replay string
+	Extra  []Term // hypothesis instances asserted only for this obligation
 }
 
 type NamedTerm struct {
